@@ -434,6 +434,11 @@ pub open spec fn cbrt_post(i: int, s: int, p: u64, m: RoundingMode, ri: int, rs:
     else { cbrt_core_post(i, s, p as int, m, ri, rs) }
 }
 
+// derive(Debug) on the error type (needed by Result::unwrap)
+impl core::fmt::Debug for ParseBigDecimalError {
+    #[verifier::external_body]
+    fn fmt(&self, f: &mut core::fmt::Formatter<'_>) -> core::fmt::Result { unimplemented!() }
+}
 // derive(Clone) on the crate's structs (derives are dropped by R7; these bodies are what derive expands to)
 impl Clone for BigDecimal {
     fn clone(&self) -> (ret: BigDecimal) ensures ret.i() == self.i(), ret.s() == self.s() {
